@@ -70,22 +70,32 @@ def gen_history(rng, gg):
     return gr, strings, mus
 
 
+def probe_api(P, rule, s, i):
+    """the other public entry points at the same position (each may keep state of its own)"""
+    return lib.py_parse(P, rule, s, i) + (" ## " + lib.py_parse_all(P, rule, s) if i == 0 else "")
+
+
 def run_history(P, gr, strings, mus, warm=True):
+    """returns (cls, rules, [(s, i, lparse outcome)], [parse / parse_all outcomes at the same positions])"""
     cls, rules = G.build(P, gr)
     if warm:
         for s in strings:
             for i in range(len(s) + 1):
                 lib.py_lparse(P, rules[0], s, i)
+                probe_api(P, rules[0], s, i)
     out = []
     for mu in mus:
         apply_mutation(P, cls, rules, mu)
         if warm:  # probe between mutations as well (keeps caches warm across steps)
             for s in strings[:3]:
                 lib.py_lparse(P, rules[0], s, 0)
+                probe_api(P, rules[0], s, 0)
+    api = []
     for s in strings:
         for i in range(len(s) + 1):
             out.append((s, i, lib.py_lparse(P, rules[0], s, i)))
-    return cls, rules, out
+            api.append(probe_api(P, rules[0], s, i))
+    return cls, rules, out, api
 
 
 CORPUS = [
@@ -115,19 +125,20 @@ def run(ctx):
     blocks = []
     exps = []
     for gr, strings, mus in hist:
-        cls, rules, warm_out = run_history(P, gr, strings, mus, warm=True)
-        _, _, cold_out = run_history(P, gr, strings, mus, warm=False)
+        cls, rules, warm_out, warm_api = run_history(P, gr, strings, mus, warm=True)
+        _, _, cold_out, cold_api = run_history(P, gr, strings, mus, warm=False)
         base_cls, base_rules = G.build(P, gr)
         differs = False
-        for (s, i, w), (_, _, c) in zip(warm_out, cold_out):
+        for (s, i, w0), (_, _, c0), wa, ca in zip(warm_out, cold_out, warm_api, cold_api):
             evals += 1
+            w, c = (w0, c0) if w0 != c0 else (wa, ca)   # lparse first, then parse / parse_all at the same position
             if w != c and rep < 3:
                 found = True
                 rep += 1
                 ctx.report("stale result after mutation %s: source=%r offset=%d warm=%r fresh-build=%r" % ([m[:2] for m in mus], s, i, w[:120], c[:120]),
                            {"kind": "history", "grammar": gr, "strings": strings, "mutations": mus, "source": [ord(ch) for ch in s], "source_repr": repr(s),
                             "offset": i, "warm": w, "fresh": c}, key="history:" + lib.digest([gr, mus, s, i]))
-            if not differs and lib.py_lparse(P, base_rules[0], s, i) != c:
+            if not differs and lib.py_lparse(P, base_rules[0], s, i) != c0:
                 differs = True
         changed += differs
         enc = lib.Encoder(P, rules)
@@ -165,8 +176,8 @@ def replay(rp):
     P = lib.import_repo()
     gr = [tuple(r) for r in rp["grammar"]]
     mus = [tuple(m) for m in rp["mutations"]]
-    _, _, w = run_history(P, gr, rp["strings"], mus, warm=True)
-    _, _, c = run_history(P, gr, rp["strings"], mus, warm=False)
-    bad = [(a, b) for a, b in zip(w, c) if a != b]
+    _, _, w, wa = run_history(P, gr, rp["strings"], mus, warm=True)
+    _, _, c, ca = run_history(P, gr, rp["strings"], mus, warm=False)
+    bad = [(a, b) for a, b in zip(w + wa, c + ca) if a != b]
     print("differences warm vs fresh build:", bad[:3])
     return 1 if bad else 0
